@@ -219,13 +219,27 @@ replace github.com/wi1dcard/fingerproxy => %s
 	os.WriteFile(filepath.Join(scratch, "go.sum"), append(sum, extra...), 0o644)
 
 	bin = filepath.Join(scratch, "worker.test")
-	args := []string{"test", "-c", "-trimpath", "-tags", "verif", "-modfile=" + filepath.Join(scratch, "go.mod"), "-o", bin, "."}
+	overlay := ""
+	if out, err := run(verifDir, goEnv(), goBin, "env", "GOROOT"); err == nil {
+		overlay = makeOverlay(strings.TrimSpace(out))
+	}
+	tags := "verif"
+	var ovArgs []string
+	if overlay != "" {
+		tags = "verif,verifdet"
+		ovArgs = []string{"-overlay=" + overlay}
+	} else {
+		fmt.Fprintf(os.Stderr, "verif: runtime sources do not have the expected shape: building without the deterministic select / map patch\n")
+	}
+	args := []string{"test", "-c", "-trimpath", "-tags", tags, "-modfile=" + filepath.Join(scratch, "go.mod"), "-o", bin}
+	args = append(append(args, ovArgs...), ".")
 	if out, err := run(filepath.Join(verifDir, "harness"), goEnv(), goBin, args...); err != nil {
 		die(2, "build failed:\n%s", out)
 	}
 	if race {
 		raceBin = filepath.Join(scratch, "worker.race.test")
-		args := []string{"test", "-c", "-race", "-trimpath", "-tags", "verif", "-modfile=" + filepath.Join(scratch, "go.mod"), "-o", raceBin, "."}
+		args := []string{"test", "-c", "-race", "-trimpath", "-tags", tags, "-modfile=" + filepath.Join(scratch, "go.mod"), "-o", raceBin}
+		args = append(append(args, ovArgs...), ".")
 		if out, err := run(filepath.Join(verifDir, "harness"), goEnv(), goBin, args...); err != nil {
 			die(2, "race build failed:\n%s", out)
 		}
